@@ -82,7 +82,8 @@ def h(t, part):
     if 'npos' in part:
         t.force([part['npos']])
     npos = t.choice(maxpos + 1)
-    ns = nscls('/registered')
+    REG = part.get('reg', '/registered')
+    ns = nscls(REG)
     rebound = npos % 2 == 1  # the object was registered with another server/client before (app factory called twice)
     for target in ([Recorder()] if rebound else []) + [rec]:
         if 'Client' in cname:
@@ -139,10 +140,10 @@ def h(t, part):
         if not same:
             return Fail('helper:%s.%s:changed:%s' % (cname, helper, n), 'caller gave %r, method received %r' % (v, gv))
     if 'namespace' in names:
-        want = given.get('namespace') or '/registered'
+        want = given.get('namespace') or REG
         if got.get('namespace') != want:
             return Fail('helper:%s.%s:namespace' % (cname, helper), 'caller gave %r, method received %r (registered for '
-                        '/registered)' % (given.get('namespace', '<omitted>'), got.get('namespace')))
+                        '%s)' % (given.get('namespace', '<omitted>'), got.get('namespace'), REG))
     if ret is not RETV:
         return Fail('helper:%s.%s:return' % (cname, helper), 'the method returned %r (id %d), the helper %r (id %d)' % (
             RETV, id(RETV), ret, id(ret)))
@@ -154,7 +155,7 @@ def h(t, part):
             drv.call(getattr(ns, helper)(*req))
         except TypeError as e:
             return Fail('helper:%s.%s:rejects-arguments' % (cname, helper), 'second call %r: %r' % (req, e))
-        if len(calls) != 1 or calls[0].get('namespace') != '/registered':
+        if len(calls) != 1 or calls[0].get('namespace') != REG:
             return Fail('helper:%s.%s:namespace-override-sticks' % (cname, helper), 'after an explicit namespace=%r a call without '
                         'namespace reached %r' % (given.get('namespace'), calls))
     return None
@@ -171,6 +172,9 @@ def parts(tier):
                 out.append({'cls': c, 'helper': hn})
             # results and exceptions pass through unchanged (incl. falsy results and cancellation)
             out.append({'cls': c, 'helper': hn, 'outcome': 'any', 'minimal': True})
+            # other registrations: the catch-all object and a nested path
+            for reg in ('*', '/a/b'):
+                out.append({'cls': c, 'helper': hn, 'reg': reg, 'minimal': True})
     return out
 
 
